@@ -34,6 +34,7 @@ EXPLANATION = (
   " (ITEM-source) an object built once per item of an inner loop is filled only with values that derive from that item or do not vary with the loops, never with a value of the enclosing container standing where the item's own belongs;"
   " (COND-supported) for every assignment of the writers' boolean options, each style property a writer method or tag helper reads under that assignment is kept by the style whitelist the constructor builds for it;"
   ' (LOOP-break) no loop over the items of a collection is left by a branch that does nothing but `break` on a test about the item (end-of-input sentinels, flags set in the loop body and searches whose variable is read afterwards excepted): an item that is to be skipped does not end the processing of the items after it;'
+  + " (FIN-merge) the paragraph merger, interpreted on sample snapshots (divs nested at several depths, a nested div between paragraphs, one or several regions), leaves one paragraph per region holding the spans of all its paragraphs in document order with one line break between consecutive paragraphs;"
 )
 RULE_TEXT = "per tag pair, per tag append, per supported value, per text flow"
 UNDECIDED = ["cue-setting values (line, align) vs the computed position and alignment", "no empty line / no '-->' inside an SRT payload (SRT has no escaping mechanism)",
@@ -610,6 +611,8 @@ def check_line_position(ctx):
 
 
 def run(ctx):
+  from ..rules import probes as _probes
+  ctx.floor("FIN-merge", "sample snapshots decided", _probes.check_paragraph_merge(ctx), 5)
   check_tag_pairing(ctx, "ttconv.srt.writer:SrtContext.append_element", wrapper_test="self._text_formatting")
   check_tag_pairing(ctx, "ttconv.vtt.writer:VttContext.process_inline_element")
   check_formatting_guard(ctx)
